@@ -1,4 +1,4 @@
-import Proto.Canon
+import Proto.Sem
 /-! Feasibility spike: mk_node and apply_ite (fuel model, op cache) are semantically correct. -/
 namespace P
 
@@ -116,15 +116,25 @@ def topCofactors (s : St) (r : Ref) (v : Nat) : Except Fault (Ref × Ref) :=
   if v ≠ s.var r then .error .assertion else
   if r.neg then .ok ((s.low r.idx).not, (s.high r.idx).not) else .ok (s.low r.idx, s.high r.idx)
 
+/-- what a cache entry asserts -/
+def Fact (nd : Nodes) : OpKey → Ref → Prop
+  | .ite f g h, r => ∃ φf φg φh, Valid nd f φf ∧ Valid nd g φg ∧ Valid nd h φh ∧ Valid nd r (ITE φf φg φh)
+  | .constrain f g, r => ∃ φf φg h, Valid nd f φf ∧ Valid nd g φg ∧ Valid nd r h ∧ ConstrainSpec φf φg h
+  | .restrict f g, r => ∃ φf φg h, Valid nd f φf ∧ Valid nd g φg ∧ Valid nd r h ∧ RestrictRel φf φg h
+
+theorem Fact.mono {nd nd'} (hs : Sub nd nd') {k r} (h : Fact nd k r) : Fact nd' k r := by
+  cases k with
+  | ite f g h' => obtain ⟨a, b, c, x, y, z, w⟩ := h; exact ⟨a, b, c, x.mono hs, y.mono hs, z.mono hs, w.mono hs⟩
+  | constrain f g => obtain ⟨a, b, c, x, y, z, w⟩ := h; exact ⟨a, b, c, x.mono hs, y.mono hs, z.mono hs, w⟩
+  | restrict f g => obtain ⟨a, b, c, x, y, z, w⟩ := h; exact ⟨a, b, c, x.mono hs, y.mono hs, z.mono hs, w⟩
+
 /-- good states -/
 structure Good (s : St) : Prop where
   inv : NInv s.nodes
   bnd : ∀ i n, s.nodes i = some n → 2 ≤ i ∧ i < s.next
   var0 : ∀ i n, s.nodes i = some n → n.var ≠ 0
   next2 : 2 ≤ s.next
-  cache : ∀ f g h r, s.cache (.ite f g h) = some r →
-    ∃ φf φg φh, Valid s.nodes f φf ∧ Valid s.nodes g φg ∧ Valid s.nodes h φh ∧
-      Valid s.nodes r (fun e => if φf e then φg e else φh e)
+  cache : ∀ k r, s.cache k = some r → Fact s.nodes k r
 
 theorem put_spec {s : St} (hg : Good s) (n : Node) {s' i} (h : s.put n = (s', i)) :
     s'.nodes i = some n ∧ Sub s.nodes s'.nodes ∧ s'.cache = s.cache ∧
@@ -248,10 +258,9 @@ theorem Good.of_put {s : St} (hg : Good s) {v low high φ0 φ1} (hv : v ≠ 0)
     rcases hcases _ _ ha with ha' | ⟨rfl, rfl⟩
     · exact hg.var0 _ _ ha'
     · exact hv
-  · intro f g hh r hc
+  · intro k r hc
     rw [hcache] at hc
-    obtain ⟨φf, φg, φh, a, b, c, d⟩ := hg.cache _ _ _ _ hc
-    exact ⟨φf, φg, φh, a.mono hsub, b.mono hsub, c.mono hsub, d.mono hsub⟩
+    exact (hg.cache _ _ hc).mono hsub
 
 theorem mkNodeReg_spec {s : St} (hg : Good s) {v low high φ0 φ1} (hv : v ≠ 0)
     (h0 : Valid s.nodes low φ0) (h1 : Valid s.nodes high φ1)
@@ -276,9 +285,6 @@ theorem mkNodeReg_spec {s : St} (hg : Good s) {v low high φ0 φ1} (hv : v ≠ 0
     obtain ⟨d0, h0⟩ := h0.mono hsub
     obtain ⟨d1, h1⟩ := h1.mono hsub
     exact ⟨_, Den.node hi h0 h1⟩
-
-theorem SuppGe.not {φ : Fn} {v} (h : SuppGe φ v) : SuppGe (fun e => !φ e) v := by
-  intro e e' hee; simp [h e e' hee]
 
 theorem mkNode_spec {s : St} (hg : Good s) {v low high φ0 φ1}
     (h0 : Valid s.nodes low φ0) (h1 : Valid s.nodes high φ1)
@@ -306,37 +312,6 @@ theorem mkNode_spec {s : St} (hg : Good s) {v low high φ0 φ1}
       rw [h] at a b c d
       exact ⟨a, b, c, d⟩
 
-
-def cof (φ : Fn) (v : Nat) (b : Bool) : Fn := fun e => φ (upd e v b)
-
-theorem cof_of_supp {φ : Fn} {v b} (h : SuppGe φ (v + 1)) : cof φ v b = φ := by
-  funext e; exact (h e (upd e v b) (upd_agree' e v b _ (Nat.lt_succ_self _))).symm
-
-theorem suppGe_cof {φ : Fn} {m v b} (h : SuppGe φ m) : SuppGe (cof φ v b) m := by
-  intro e e' hee
-  apply h
-  intro w hw
-  by_cases hwv : w = v
-  · subst hwv; simp
-  · rw [upd_other _ _ _ _ hwv, upd_other _ _ _ _ hwv]; exact hee w hw
-
-theorem suppGe_cof_succ {φ : Fn} {v b} (h : SuppGe φ v) : SuppGe (cof φ v b) (v + 1) := by
-  intro e e' hee
-  apply h
-  intro w hw
-  by_cases hwv : w = v
-  · subst hwv; simp
-  · rw [upd_other _ _ _ _ hwv, upd_other _ _ _ _ hwv]; exact hee w (by omega)
-
-theorem shannon (φ : Fn) (v : Nat) : φ = fun e => if e v then cof φ v true e else cof φ v false e := by
-  funext e
-  have : ∀ b, e v = b → upd e v b = e := by
-    intro b hb; funext w; by_cases h : w = v
-    · subst h; simp [hb]
-    · exact upd_other _ _ _ _ h
-  cases hb : e v
-  · simp [cof, this false hb]
-  · simp [cof, this true hb]
 
 theorem isOne_eq {r} (h : isOne r = true) : r = Ref.one := by simpa [isOne] using h
 theorem isZero_eq {r} (h : isZero r = true) : r = Ref.zero := by simpa [isZero] using h
@@ -491,8 +466,6 @@ def applyIte : Nat → St → Ref → Ref → Ref → Except Fault (St × Ref)
     | .error e => .error e
     | .ok (s', res) => .ok (s', if n then res.not else res)
 
-def ITE (φf φg φh : Fn) : Fn := fun e => if φf e then φg e else φh e
-
 def RecSpec (rec : Rec) : Prop :=
   ∀ s f g h φf φg φh s' r, Good s → Valid s.nodes f φf → Valid s.nodes g φg → Valid s.nodes h φh →
     rec s f g h = .ok (s', r) →
@@ -501,17 +474,15 @@ def RecSpec (rec : Rec) : Prop :=
 theorem SuppGe.ite {a b c : Fn} {v} (ha : SuppGe a v) (hb : SuppGe b v) (hc : SuppGe c v) : SuppGe (ITE a b c) v := by
   intro e e' hee; simp [ITE, ha e e' hee, hb e e' hee, hc e e' hee]
 
-theorem Good.cacheInsert {s : St} (hg : Good s) {f g h r φf φg φh}
-    (hf : Valid s.nodes f φf) (hgg : Valid s.nodes g φg) (hh : Valid s.nodes h φh)
-    (hr : Valid s.nodes r (ITE φf φg φh)) : Good (s.cacheInsert (.ite f g h) r) := by
+theorem Good.cacheInsert {s : St} (hg : Good s) {k r} (hf : Fact s.nodes k r) : Good (s.cacheInsert k r) := by
   refine ⟨hg.inv, hg.bnd, hg.var0, hg.next2, ?_⟩
-  intro f2 g2 h2 r2 hc
+  intro k2 r2 hc
   simp only [St.cacheInsert] at hc
   split at hc
   · rename_i heq
     cases heq; cases hc
-    exact ⟨φf, φg, φh, hf, hgg, hh, hr⟩
-  · exact hg.cache _ _ _ _ hc
+    exact hf
+  · exact hg.cache _ _ hc
 
 theorem iteCore_spec {rec : Rec} (hrec : RecSpec rec) {s : St} (hg : Good s) {f g h a b c m s' r}
     (hf : Valid s.nodes f a) (hgg : Valid s.nodes g b) (hh : Valid s.nodes h c)
@@ -523,7 +494,7 @@ theorem iteCore_spec {rec : Rec} (hrec : RecSpec rec) {s : St} (hg : Good s) {f 
   | some res =>
     simp only [hc, Except.ok.injEq, Prod.mk.injEq] at hres
     obtain ⟨rfl, rfl⟩ := hres
-    obtain ⟨a', b', c', ha', hb', hc', hr⟩ := hg.cache _ _ _ _ hc
+    obtain ⟨a', b', c', ha', hb', hc', hr⟩ := hg.cache _ _ hc
     have h1 := hg.inv.noterm
     rw [hf.det h1 ha', hgg.det h1 hb', hh.det h1 hc']
     exact ⟨hg, fun _ _ x => x, hr⟩
@@ -574,7 +545,7 @@ theorem iteCore_spec {rec : Rec} (hrec : RecSpec rec) {s : St} (hg : Good s) {f 
         else ITE (cof a m false) (cof b m false) (cof c m false) e) = ITE a b c := by
       rw [shannon (ITE a b c) m]; rfl
     rw [hfun] at vres
-    exact ⟨g3'.cacheInsert (hf.mono sub03) (hgg.mono sub03) (hh.mono sub03) vres, sub03, vres⟩
+    exact ⟨g3'.cacheInsert ⟨_, _, _, hf.mono sub03, hgg.mono sub03, hh.mono sub03, vres⟩, sub03, vres⟩
 
 
 
